@@ -203,13 +203,20 @@ class _GlobSplit(Generic[AnyStr]):
         """Handle character group."""
 
         c = next(i)
-        if c == '!':
+        if c in ('!', '^'):
             c = next(i)
-        if c in ('^', '-', '['):
+        if c == '[':
+            # A POSIX class is a unit: its `]` does not close the sequence
+            i.match(_wcparse.RE_POSIX)
+            c = next(i)
+        elif c in ('-', ']'):
+            # A leading `-` or `]` is literal, as it is for the pattern parser
             c = next(i)
 
         while c != ']':
-            if c == '\\':
+            if c == '[':
+                i.match(_wcparse.RE_POSIX)
+            elif c == '\\':
                 # Handle escapes
                 try:
                     self._references(i, True)
